@@ -353,6 +353,53 @@ fn body(fx: &Arc<Fixture>, live: &Path, c: &Cfg) -> Result<String, String> {
                             obs.push_str(&format!("r{r}:{i}=err "));
                         }
                     }
+                } else if op == "header" {
+                    match gix_odb::Header::try_header(&h, &id) {
+                        Ok(Some(hdr)) => {
+                            let Some(content) = &fx.contents[*i] else {
+                                return Err(format!("wrong-content: try_header found the absent object {id}"));
+                            };
+                            if hdr.size() != content.len() as u64 {
+                                return Err(format!("wrong-content: try_header({id}) reports size {} but the object has {} bytes", hdr.size(), content.len()));
+                            }
+                            obs.push_str(&format!("r{r}:{i}=hdr "));
+                        }
+                        Ok(None) => {
+                            if always_present(*i) && !no_refresh {
+                                return Err(format!("not-found: object #{i} {id} is on disk during the whole call but try_header returned None"));
+                            }
+                            obs.push_str(&format!("r{r}:{i}=nohdr "));
+                        }
+                        Err(e) => {
+                            if always_present(*i) && !no_refresh {
+                                return Err(format!("lookup-error: object #{i} {id} is on disk during the whole call but try_header failed: {e}"));
+                            }
+                            obs.push_str(&format!("r{r}:{i}=hdrerr "));
+                        }
+                    }
+                } else if op == "prefix" {
+                    let prefix = gix_hash::Prefix::new(&id, 12).expect("valid prefix length");
+                    match h.lookup_prefix(prefix, None) {
+                        Ok(Some(Ok(found))) => {
+                            if found != id || fx.contents[*i].is_none() {
+                                return Err(format!("wrong-content: lookup_prefix({prefix}) returned {found} for {id}"));
+                            }
+                            obs.push_str(&format!("r{r}:{i}=pfx "));
+                        }
+                        Ok(Some(Err(()))) => return Err(format!("wrong-content: lookup_prefix({prefix}) reports ambiguity, all fixture ids differ within 12 hex digits")),
+                        Ok(None) => {
+                            if always_present(*i) && !no_refresh {
+                                return Err(format!("not-found: object #{i} {id} is on disk during the whole call but lookup_prefix returned None"));
+                            }
+                            obs.push_str(&format!("r{r}:{i}=nopfx "));
+                        }
+                        Err(e) => {
+                            if always_present(*i) && !no_refresh {
+                                return Err(format!("lookup-error: object #{i} {id} is on disk during the whole call but lookup_prefix failed: {e}"));
+                            }
+                            obs.push_str(&format!("r{r}:{i}=pfxerr "));
+                        }
+                    }
                 } else {
                     let found = PackFind::contains(&h, &id);
                     if found && fx.contents[*i].is_none() {
@@ -438,7 +485,7 @@ fn eval(run: &Run, fx: &Arc<Fixture>, c: &Cfg) -> Verdict {
 
 pub fn run(run: &'static Run) {
     run.rule("objects dir with packs P1,P2 + one loose object (optionally a multi-pack-index over P1+P2), Slots::Given(4); 1-2 reader threads, each with its own handle \
-        (with/without prevent_pack_unload, with/without refresh) doing 1-2 try_find/contains of objects x1(P1) x2(P2) l(loose) x3(arrives later) and an absent id; \
+        (with/without prevent_pack_unload, with/without refresh) doing 1-2 try_find/contains/try_header/lookup_prefix of objects x1(P1) x2(P2) l(loose) x3(arrives later) and an absent id; \
         an environment thread performs one of the histories {add pack, repack (install new pack, then remove old .idx/.pack), repack + prune loose, pack the loose object + prune, \
         write multi-pack-index, repack under a multi-pack-index} one syscall at a time in git's order; ALL interleavings with at most b preemptions (b = 0,1 quick; 0..2 thorough); \
         oracle: returned data hashes to the requested id; an object on disk during the whole call is found when refresh is enabled; no panic, deadlock or livelock; \
@@ -451,6 +498,8 @@ pub fn run(run: &'static Run) {
     let mut cases: Vec<Cfg> = Vec::new();
     let f = |i: usize| ("find".to_string(), i);
     let has = |i: usize| ("contains".to_string(), i);
+    let hdr = |i: usize| ("header".to_string(), i);
+    let pfx = |i: usize| ("prefix".to_string(), i);
     let mut add = |history: &str, midx0: bool, readers: Vec<Vec<(String, usize)>>, stable: Vec<bool>, no_refresh: Vec<bool>, bound: usize| {
         // the slot-reuse histories run on a store with exactly 3 slots so that the round-robin slot search wraps around
         let slots = history.contains("-reuse") .then_some(3).or(history.contains("repack-add-refresh").then_some(3));
@@ -465,6 +514,13 @@ pub fn run(run: &'static Run) {
         }
         add("midx-repack", true, vec![vec![f(0), f(1)]], vec![false], vec![false], bound);
         add("add-pack", false, vec![vec![f(3), f(4)]], vec![false], vec![false], bound);
+        // the other lookup entry points have refresh loops of their own: header lookup and prefix disambiguation
+        for h in ["repack", "pack-loose", "repack-prune"] {
+            add(h, false, vec![vec![hdr(0), hdr(2)]], vec![false], vec![false], bound);
+            add(h, false, vec![vec![pfx(2), pfx(0)]], vec![false], vec![false], bound);
+        }
+        add("midx-repack", true, vec![vec![hdr(0), pfx(1)]], vec![false], vec![false], bound);
+        add("add-pack", false, vec![vec![pfx(3), hdr(3), hdr(4)]], vec![false], vec![false], bound);
         add("repack", false, vec![vec![has(0), f(0)]], vec![false], vec![true], bound);
         // stale reader: knows P1's index (contains) but not its pack data, looks the object up after the slots were recycled
         for h in ["repack-add-refresh-scripted", "trash-reuse-scripted"] {
@@ -505,7 +561,7 @@ pub fn run(run: &'static Run) {
             if c.readers.len() == 2 {
                 return matches!(c.history.as_str(), "none" | "pack-loose");
             }
-            seen.insert(c.history.clone())
+            seen.insert((c.history.clone(), c.readers[0][0].0.clone()))
         });
     }
     if let Ok(only) = std::env::var("VERIF_C12_ONLY") {
